@@ -42,9 +42,14 @@ structure Cfg where
   tchanUnroot : Bool
   /-- janet_ev_handle_selfpipe decrements listener_count for every event read, also those with cb = NULL -/
   nullDec : Bool
+  /-- janet_stream_close notifies the read-side and the write-side fiber independently (`if … if …`, not `if … else if …`) -/
+  closeBoth : Bool
   deriving Repr
 
-def Cfg.ofGen : Cfg := { tchanUnroot := Gen.Loop.tchanUnrootCb, nullDec := !Gen.Loop.selfpipeDecNeedsCb }
+def Cfg.ofGen : Cfg :=
+  { tchanUnroot := Gen.Loop.tchanUnrootCb
+    nullDec := !Gen.Loop.selfpipeDecNeedsCb
+    closeBoth := Gen.Loop.closeNotifiesBoth }
 
 structure St where
   /-- janet_vm.listener_count (an Int, so that an unmatched decrement is visible) -/
@@ -77,6 +82,8 @@ structure St where
   tchanLeaked : Nat := 0
   /-- stream roots left behind when gc.c frees a fiber that still has ev_state -/
   orphanStreams : Nat := 0
+  /-- listeners whose stream has been closed without notifying them: the descriptor is gone from epoll, nothing can wake them -/
+  orphanLis : Nat := 0
   deriving Repr
 
 def init : St := {}
@@ -115,6 +122,8 @@ inductive Ev
   | tchanDirect
   | tadd (t : Timer)
   | tpop (t : Timer)
+  /-- close(2) in janet_stream_close_impl after the notifications; `orphans` fibers still have a callback installed on it -/
+  | streamClosed (orphans : Nat)
   deriving Repr
 
 def step (cfg : Cfg) (s : St) : Ev → Option St
@@ -132,9 +141,12 @@ def step (cfg : Cfg) (s : St) : Ev → Option St
   | .ran _ false => some s
   | .gcFiber _ => some s
   | .astart => some { s with lis := s.lis + 1, lc := s.lc + 1, roots := s.roots + 1 }
-  | .aend => if s.lis = 0 then none else some { s with lis := s.lis - 1, lc := s.lc - 1, roots := s.roots - 1 }
+  | .aend =>
+    if s.lis = 0 then none
+    else some { s with lis := s.lis - 1, lc := s.lc - 1, roots := s.roots - 1, orphanLis := min s.orphanLis (s.lis - 1) }
   | .gcListener =>
-    if s.lis = 0 then none else some { s with lis := s.lis - 1, lc := s.lc - 1, orphanStreams := s.orphanStreams + 1 }
+    if s.lis = 0 then none
+    else some { s with lis := s.lis - 1, lc := s.lc - 1, orphanStreams := s.orphanStreams + 1, orphanLis := min s.orphanLis (s.lis - 1) }
   | .await => some { s with calls := s.calls + 1, awaits := s.awaits + 1, lc := s.lc + 1, roots := s.roots + 1 }
   | .callNoFiber => some { s with calls := s.calls + 1, noFiber := s.noFiber + 1, lc := s.lc + 1 }
   | .procWait => some { s with calls := s.calls + 1, procWaits := s.procWaits + 1, lc := s.lc + 1, roots := s.roots + 2 }
@@ -166,6 +178,7 @@ def step (cfg : Cfg) (s : St) : Ev → Option St
     if s.tchanPending = 0 then none else some { s with tchanPending := s.tchanPending - 1, roots := s.roots - 1 }
   | .tadd t => some { s with timers := t :: s.timers }
   | .tpop t => if t ∈ s.timers then some { s with timers := s.timers.erase t } else none
+  | .streamClosed n => if s.orphanLis + n ≤ s.lis then some { s with orphanLis := s.orphanLis + n } else none
 
 def run (cfg : Cfg) : St → List Ev → Option St
   | s, [] => some s
@@ -182,6 +195,21 @@ def outstanding (s : St) : Nat := s.susp.length + s.lis + s.posted + s.postedNul
 
 /-- nothing left to run, to wait for, or to time out -/
 def Idle (s : St) : Prop := s.runq = [] ∧ s.timers = [] ∧ outstanding s = 0
+
+/-- `janet_stream_close` on a stream with a fiber parked on the read side (`r`) and / or the write side (`w`): each notified
+    fiber's callback schedules it and ends its listener (`janet_async_end`), then the descriptor is closed.
+    `if (rf && rf->ev_callback) {…} if (wf && wf->ev_callback) {…}` notifies both; with `else if` the writer is skipped whenever a
+    reader is parked. -/
+def streamCloseEvents (cfg : Cfg) (r w : Bool) : List Ev :=
+  if cfg.closeBoth then
+    (if r then [Ev.aend] else []) ++ (if w then [Ev.aend] else []) ++ [Ev.streamClosed 0]
+  else if r then [Ev.aend, Ev.streamClosed (if w then 1 else 0)]
+  else if w then [Ev.aend, Ev.streamClosed 0]
+  else [Ev.streamClosed 0]
+
+/-- can anything still wake the loop up?  `liveTimer`: some timer in the heap is not stale -/
+def canWake (s : St) (liveTimer : Bool) : Bool :=
+  !s.runq.isEmpty || decide (0 < s.posted + s.postedNull + s.calls) || decide (s.orphanLis < s.lis) || liveTimer
 
 /-! ### the poll phase of janet_loop1 (phase 3): stale timeouts are dropped from the head of the heap
 
@@ -287,6 +315,9 @@ def rootSpec : List (String × String × String × String) := [
   ("os.c", "os_sigaction", "unroot", "oldhandler"),
   ("os.c", "os_sigaction", "root", "handlerv")
 ]
+
+def closeSpec (both : Bool) : List (String × List String) :=
+  [("rf", ["if(rf&&rf->ev_callback)"]), ("wf", [if both then "if(wf&&wf->ev_callback)" else "elseif(wf&&wf->ev_callback)"])]
 
 def isTchanRelease (x : String × String × String × String) : Bool :=
   x.2.2.1 == "unroot" && (x.2.1 == "janet_thread_chan_cb" || x.2.1 == "cfun_channel_close" || x.2.1 == "janet_chan_deinit")
